@@ -107,22 +107,27 @@ def prefixOf (ts : Tokens) : Option Bytes :=
       if lit.isEmpty then none else some lit
     | none => none
 
+/-- the first lines of `suffix`: the literal so far ("/" when the glob is `**/` + a literal), the
+tokens from `start` on, and `entire` -/
+def suffixParts : Tokens → Bytes × Tokens × Bool
+  | .atom .recPrefix :: .atom (.lit c) :: r => ([47], .atom (.lit c) :: r, true)
+  | .atom .recPrefix :: r => ([], r, false)
+  | r => ([], r, false)
+
+/-- the rest of `suffix`: an optional `*`, then literals only -/
+def suffixTail (pre : Bytes) (t : Tok) (r : Tokens) (entire : Bool) : Option (Bytes × Bool) :=
+  match allLits (if t = .atom .star then r else t :: r) with
+  | some cs =>
+    if (pre ++ encPat cs).isEmpty || decide (pre ++ encPat cs = [47]) then none
+    else some (pre ++ encPat cs, entire)
+  | none => none
+
 /-- `suffix` -/
 def suffixOf (ts : Tokens) : Option (Bytes × Bool) :=
-  let (pre, rest, entire) : Bytes × Tokens × Bool := match ts with
-    | .atom .recPrefix :: .atom (.lit c) :: r => ([47], .atom (.lit c) :: r, true)
-    | .atom .recPrefix :: r => ([], r, false)
-    | r => ([], r, false)
   if ts.isEmpty then none
-  else match rest with
+  else match (suffixParts ts).2.1 with
     | [] => none
-    | t :: r =>
-      let body := if t = .atom .star then r else t :: r
-      match allLits body with
-      | some cs =>
-        let lit := pre ++ encPat cs
-        if lit.isEmpty || lit = [47] then none else some (lit, entire)
-      | none => none
+    | t :: r => suffixTail (suffixParts ts).1 t r (suffixParts ts).2.2
 
 /-- the loop of `required_ext` over the reversed tokens; `acc` is the extension so far -/
 def reqExtAux : Tokens → Chars → Option Chars
@@ -229,6 +234,16 @@ def rewritePathsX (x : XCfg) (fs : FS) (m : List (Bytes × Cov)) : Res (List Rec
   | some s => if UPath.isAbsolute s then collect (m.map (rewriteKeyX x fs)) else .panic "assert_absolute"
   | none => collect (m.map (rewriteKeyX x fs))
 
+/-- the configuration with its two sets compiled -/
+def GCfg.withSets (g : GCfg) (ig kp : List Tokens) : XCfg :=
+  { sourceDir := g.sourceDir, prefixDir := g.prefixDir, mapping := g.mapping, ignore := ig, keep := kp,
+    ignoreNotExisting := g.ignoreNotExisting, filter := g.filter }
+
+/-- the configuration of the old model (GrcovModel/Rewrite.lean) with the same options -/
+def GCfg.withOld (g : GCfg) (ig kp : Glob.GlobSet) : Cfg :=
+  { sourceDir := g.sourceDir, prefixDir := g.prefixDir, mapping := g.mapping, ignore := ig, keep := kp,
+    ignoreNotExisting := g.ignoreNotExisting, filter := g.filter }
+
 /-- `rewrite_paths` from its first line: both sets are compiled (ignore first), a pattern that
 does not parse is `unwrap`ped — before the `assert!` on the source directory and before any key -/
 def rewritePathsG (g : GCfg) (fs : FS) (m : List (Bytes × Cov)) : Res (List Rec) :=
@@ -236,9 +251,6 @@ def rewritePathsG (g : GCfg) (fs : FS) (m : List (Bytes × Cov)) : Res (List Rec
   | .error _ => .panic "glob_unwrap"
   | .ok ig => match compileSet g.keep with
     | .error _ => .panic "glob_unwrap"
-    | .ok kp =>
-      rewritePathsX { sourceDir := g.sourceDir, prefixDir := g.prefixDir, mapping := g.mapping,
-                      ignore := ig, keep := kp, ignoreNotExisting := g.ignoreNotExisting,
-                      filter := g.filter } fs m
+    | .ok kp => rewritePathsX (g.withSets ig kp) fs m
 
 end Grcov.GlobSyntax
